@@ -192,6 +192,7 @@ func genC02PgpSubkeys(r *rng) {
 }
 
 func genC02(tier string, r *rng) {
+	genSshWire(tier, r.fork()) // tie of Model/SshWire.lean (ssh.ParsePublicKey on ssh-rsa / ssh-ed25519 blobs) to the code
 	genDerKeys(tier, r)
 	genC02PgpSubkeys(r)
 	comments := []string{"", "user@host", "a comment with spaces", "ünï@cödé", "#x"}
